@@ -5,3 +5,5 @@ cd /repo && git diff --quiet || { echo "/repo not clean"; exit 2; }
 git apply /verif/seeded/$s/patch.diff || exit 2
 for c in "$@"; do (cd /verif && ./check $c quick 2>&1 | grep -E "VIOLATION|^OK|KNOWN" | sed "s/^/[$s vs $c] /"); done
 git -C /repo checkout -- .
+# refresh the evidence files from the unchanged tree (evidence must never come from a mutated run)
+for c in "$@"; do (cd /verif && ./check $c quick >/dev/null 2>&1); done
